@@ -412,6 +412,7 @@ func checkC17(w *World, r *Report) {
 	a.checkLookups(r, reach)
 	checkCallsNotTolerant(w, r)
 	a.checkTopLevel(r)
+	a.checkLoadersExhausted(r)
 }
 
 func uniqStrings(s []string) []string {
@@ -612,6 +613,38 @@ func (a *errAnalysis) checkLookups(r *Report, reach map[*ssa.Function]bool) {
 		})
 	}
 	r.floor("filter/function/test name lookups", n, 3)
+}
+
+// checkLoadersExhausted (R17.1, loader clause): loader failures may be superseded by a later
+// loader's success, never by nothing — where the walk over the loaders produced no template,
+// Engine.Load returns a non-nil error on every path (no "keep the cached copy" fallback that
+// turns a failing loader into stale output with a nil error).
+func (a *errAnalysis) checkLoadersExhausted(r *Report) {
+	w := a.w
+	fn, region := w.loadNilRegion()
+	if region == nil {
+		return
+	}
+	ei := errResultIndex(fn.Signature)
+	n := 0
+	instrsOf(fn, func(in ssa.Instruction) {
+		ret, ok := in.(*ssa.Return)
+		if !ok || !(region == ret.Block() || region.Dominates(ret.Block())) {
+			return
+		}
+		res := retResults(ret)
+		if ei < 0 || ei >= len(res) {
+			return
+		}
+		n++
+		construct := "error returned when every loader failed"
+		if isNilConst(res[ei]) {
+			r.bad("R17.1", ssaName(fn), construct, w.posOf(ret.Pos()), "on the path where no loader delivered the template Engine.Load returns a nil error: the loaders' failures (a missing file, an I/O error) are replaced by whatever is returned instead — stale output — and never reach the caller")
+		} else {
+			r.ok("R17.1", ssaName(fn), construct, w.posOf(ret.Pos()), "a non-nil error is returned", true)
+		}
+	})
+	r.Counts["returns of Engine.Load after the loaders were exhausted"] = n
 }
 
 // checkTopLevel: R17.3
